@@ -261,9 +261,11 @@ def judge(case, obs):
             viol.append(("fault-ignored", "exit status 0 although a stage failed"))
         if first is not None and ldrun:
             viol.append(("linked-after-failure", "the link step was started although a compilation stage failed: %s" % ldrun[0]["argv"]))
+        # only the outputs of pipelines that contain a fault have to be absent (the driver may or may not
+        # go on with other inputs; the one in /repo stops at the first failing pipeline)
         allowed = set(inputs)
-        for i, name, _ in pipes:
-            if first is None or i < first:
+        for i, name, stages in pipes:
+            if all(v[(i, s)][0] == "ok" for s in stages):
                 allowed |= outputs_of(case, i, name, obs["out"])
         if first is None and mode == "link":
             allowed.add(obs["out"] or "a.out")      # the property does not require removing a partial executable
